@@ -20,7 +20,8 @@ structure ConfBlock where
 deriving Repr
 
 /-- What the evaluator needs besides the file system (see `Env`).  `timeFormat` is `time_format` (time.c: `localtime` +
-`strftime`, `none` = NULL), used by the file-time date conditions. -/
+`strftime`, `none` = NULL), used by the file-time date conditions: it becomes `Env.timeFormat` of the environment a message
+is evaluated in. -/
 structure EvalOracles where
   rx : Pat → Bytes → RxRes
   strptime : Bytes → Option (Tm × Bytes)
@@ -113,12 +114,12 @@ def processMessage (env : PEnv) (orc : EvalOracles) (expr : Expr) (md : Maildir)
         let eenv : Env := {
           rx := orc.rx, command := fun _ => -1, isDir := fun _ => false, now := env.now,
           strptime := orc.strptime, zoneName := orc.zoneName, fileTime := fun _ => none,
-          dryrun := env.dryrun, path := ms.path }
+          timeFormat := orc.timeFormat, dryrun := env.dryrun, path := ms.path }
         let free (ms : MsgSt) : Prog Unit :=
           match ms.fd with
           | some h => do let _ ← call (.close h); pure ()
           | none => pure ()
-        let ev ← evalP eenv orc.timeFormat expr ms.msg ms.flags
+        let ev ← evalP eenv expr ms.msg ms.flags
         match ev with
         | (.error, _) => do free ms; pure ({ st with error := true }, md)
         | (.nomatch, _) => do free ms; pure (st, md)
